@@ -9,28 +9,55 @@ Operation sequences are arbitrary lists of `COp` (create, full payload {complete
 incremental payload, close, close with a failing final rename, cancel, SetDueNext(Full), reopen,
 crash at any of the four points inside Close) subject to `OpOK`: one sink open at a time, created
 with a fresh name and a (term, index) not below any listed snapshot, incremental payloads carry at
-least one WAL file. Reap is covered by C07 (its effect on a well-formed store is proved there).
+least one WAL file without duplicates; reap (run to completion; crashes inside it are C07) with no
+sink open and a fresh name (`OpOK'`). Lemmas/SnapCatReap.lean bridges the catalog invariant to C07's
+well-formedness `WF`, so reap is part of the induction.
 -/
-import RqModel.Lemmas.SnapCat
+import RqModel.Lemmas.SnapCatReap
 import RqModel.Gen.SinkShape
 namespace C09
 open RqModel.SnapFS RqModel.SnapCat
 
 variable {D : Type}
 
-/-- After any admissible operation sequence on an empty store — including sinks that fail, are
-cancelled, or are cut by a crash inside Close, and restarts —: listing succeeds and shows only
-directories that completed the final rename (`Listed`: not temporary, meta.json naming the
-directory, a database with matching CRC or at least one WAL file), and every listed incremental
-has a listed full snapshot at or before it in (term, index, name) order, i.e. resolves to one
-full database followed by WAL segments. -/
-theorem catalog_inv (A : DbAlg D) (ops : List (COp D)) (hok : OpsOK A {} ops) :
+/-- After any admissible operation sequence on an empty store — sinks that complete, fail, are
+cancelled, or are cut by a crash inside Close, restarts, SetDueNext(Full) AND reaps (consolidating,
+remove-only or with nothing to do) —: listing succeeds and shows only directories that completed
+the final rename (`Listed`: not temporary, meta.json naming the directory, a database with matching
+CRC or at least one WAL file), and every listed incremental has a listed full snapshot at or
+before it in (term, index, name) order. -/
+theorem catalog_inv (A : DbAlg D) (laws : DbLaws A) (ops : List (COp D)) (hok : OpsOK' A {} ops) :
     let s := runOps A {} ops
     (∃ xs, scan s.fs = .ok xs ∧ ∀ x ∈ xs, Listed s.fs x) ∧
     (∀ n d, Live s.fs n d → d.db = none →
       ∃ n' d', Live s.fs n' d' ∧ d'.db.isSome ∧ keyLe (keyOf n' d') (keyOf n d)) := by
-  have hinv := runOps_inv A ops {} catInv_empty hok
+  have hinv := (runOps_inv' A laws ops {} catInv_empty fsInv_empty hok).1
   exact ⟨scan_ok hinv, hinv.based⟩
+
+/-- … the listing is sorted oldest first by (term, index, name), without duplicate names
+(List() returns its reverse: newest first) … -/
+theorem list_sorted (A : DbAlg D) (laws : DbLaws A) (ops : List (COp D)) (hok : OpsOK' A {} ops)
+    (xs : List (Snap D)) (h : scan (runOps A {} ops).fs = .ok xs) :
+    xs.Pairwise (fun a b => keyLe (snapKey a) (snapKey b)) ∧ (xs.map (·.name)).Nodup :=
+  ⟨scan_sorted h, (scan_names (runOps_inv' A laws ops {} catInv_empty fsInv_empty hok).2 h).1⟩
+
+/-- … and EVERY listed snapshot resolves: walking back from it through the sorted listing reaches a
+full snapshot, so ResolveFiles returns one database file followed by the WAL files of the
+incrementals after it, in listing order (`resolveRev`). -/
+theorem listed_resolves (A : DbAlg D) (laws : DbLaws A) (ops : List (COp D)) (hok : OpsOK' A {} ops)
+    (xs : List (Snap D)) (h : scan (runOps A {} ops).fs = .ok xs) (i : Nat) (hi : i < xs.length) :
+    (resolveRev (xs.take (i + 1)).reverse).isSome := by
+  have hinv := runOps_inv' A laws ops {} catInv_empty fsInv_empty hok
+  exact RqModel.SnapCat.listed_resolves hinv.1 hinv.2 h i hi
+
+/-- The catalog invariant gives exactly the hypotheses under which C07 proves reap crash-safe:
+before any reap inside an admissible sequence the store is well-formed in C07's sense. -/
+theorem reap_precondition_from_invariant (A : DbAlg D) (laws : DbLaws A) (ops : List (COp D)) (hok : OpsOK' A {} ops)
+    (nn : Nat) (hreap : OpOK' (runOps A {} ops) (.reap nn)) (xs o : List (Snap D)) (f : Snap D) (n : List (Snap D))
+    (hscan : scan (runOps A {} ops).fs = .ok xs) (hsplit : splitLastFull xs = some (o, f, n)) :
+    ∃ d0 dw0, WF (reapCtx A (runOps A {} ops) o f n d0 nn) (runOps A {} ops).fs dw0 := by
+  have hinv := runOps_inv' A laws ops {} catInv_empty fsInv_empty hok
+  exact wf_of_inv A laws hinv.1 hinv.2 hscan hsplit nn hreap.2.1 hreap.2.2
 
 /-- Close never installs an incremental snapshot while a full one is due (FULL_NEEDED set or the
 store empty), whenever that came about (before or after the header was accepted). -/
@@ -152,6 +179,19 @@ example : OpsOK exAlg {} exOK := by
       simp [keyOf, keyLe]
     · cases h1
   · show ([2] : List Nat) ≠ []; simp
+
+
+/-! ### non-vacuity of the reap-admitting side conditions -/
+
+def exA9 : DbAlg Nat := ⟨fun d w => max d w⟩
+theorem exLaws9 : DbLaws exA9 := ⟨fun d w => by simp [exA9], fun d => by simp [exA9]⟩
+def exOK9 : List (COp Nat) :=
+  [.create 1 1 10 1, .wfull 1 5 [] .ok, .close 1, .create 2 2 20 1, .winc 2 [7], .setFull, .close 2, .cancel 2,
+   .create 3 3 30 1, .wfull 3 6 [] .ok, .crashClose 3 .renamed, .reopen,
+   .create 4 4 40 2, .winc 4 [8, 9], .close 4, .reap 50]
+/-- the side conditions of `catalog_inv` (with a refused incremental, a crash inside Close, a restart and a
+consolidating reap) are satisfiable -/
+example : OpsOK' exA9 {} exOK9 := opsOKB_sound exA9 exLaws9 _ _ catInv_empty fsInv_empty (by decide)
 
 
 end C09
